@@ -2,7 +2,9 @@
 // SimGrid) which ones can never deadlock and which joint matchings MPI allows, runs each kept program on SMPI and
 // checks that what the ranks observed is one of the allowed matchings, with exact bytes / status / count / truncation.
 //
-//   p2p <R> <bound> <shard> <nshards> [only=<index>] [verbose]
+//   p2p <R> <bound> <shard> <nshards> [score=<file>] [after=<index>:<variant>] [skipclass=<mask>] [only=<index>] [onlyvar=<v>] [verbose]
+//     score: mmap'ed file of longs {index, variant in progress, counters...}: survives the death of the simulation;
+//     after: resume after that run; skipclass bit 0: skip programs in which a small-capacity receive may get a longer message
 //     R ranks (= world size), programs with <bound> operations in total (<= 3 per rank), this simulation takes the
 //     programs whose index in the enumeration is = shard modulo nshards.
 //
@@ -31,6 +33,9 @@
 #include <string>
 #include <algorithm>
 #include <unordered_set>
+#include <sys/mman.h>
+#include <fcntl.h>
+#include <unistd.h>
 
 enum { SEND, ISEND, SSEND, BSEND, RECV, IRECV, SENDRECV, PROBE, IPROBE };
 static const int ANY = -1;
@@ -282,9 +287,20 @@ int main(int argc, char** argv)
   MPI_Comm_size(MPI_COMM_WORLD, &W);
   if (argc < 5) { MPI_Finalize(); return 2; }
   int R = atoi(argv[1]), bound = atoi(argv[2]), shard = atoi(argv[3]), nshards = atoi(argv[4]);
-  long only = -1; bool verbose = false;
-  int A = 16, D = 64;
-  for (int a = 5; a < argc; a++) { sscanf(argv[a], "only=%ld", &only); sscanf(argv[a], "A=%d", &A); sscanf(argv[a], "D=%d", &D); if (!strcmp(argv[a], "verbose")) verbose = true; }
+  long only = -1, after_i = -1; bool verbose = false;
+  int A = 16, D = 64, after_v = -1, onlyvar = -1, skipclass = 0;
+  long dummy[32] = {0};
+  long* score = dummy;
+  for (int a = 5; a < argc; a++) {
+    sscanf(argv[a], "only=%ld", &only); sscanf(argv[a], "A=%d", &A); sscanf(argv[a], "D=%d", &D); sscanf(argv[a], "onlyvar=%d", &onlyvar);
+    sscanf(argv[a], "after=%ld:%d", &after_i, &after_v); sscanf(argv[a], "skipclass=%d", &skipclass);
+    if (!strcmp(argv[a], "verbose")) verbose = true;
+    if (!strncmp(argv[a], "score=", 6) && rank == 0) {
+      int fd = open(argv[a] + 6, O_RDWR);
+      if (fd >= 0) { score = (long*)mmap(nullptr, 4096, PROT_READ | PROT_WRITE, MAP_SHARED, fd, 0); close(fd); }
+    }
+  }
+  score[0] = -1; score[1] = -1;
   if (R != W) { if (!rank) printf("HARNESS-ERROR world size %d != R %d\n", W, R); MPI_Finalize(); return 2; }
   MPI_Comm comm, sync;
   MPI_Comm_dup(MPI_COMM_WORLD, &comm);
@@ -306,7 +322,9 @@ int main(int argc, char** argv)
     while (true) { int sum = 0; for (int v : k) sum += v; if (sum == bound) dists.push_back(k);
       int i = R - 1; while (i >= 0 && k[i] == 3) k[i--] = 0; if (i < 0) break; k[i]++; } }
   long index = -1, generated = 0, balanced = 0, kept = 0, run = 0, deadlocking = 0, leftover = 0, overflow = 0, multi = 0, nviol = 0;
-  long states = 0, transitions = 0, truncs = 0, anysrc = 0, mixed = 0, outcomes_total = 0;
+  long states = 0, transitions = 0, truncs = 0, anysrc = 0, mixed = 0, outcomes_total = 0, skipped = 0;
+  auto publish = [&]() { long c[] = {generated, balanced, kept, deadlocking, leftover, overflow, run, multi, states, transitions, truncs, anysrc, mixed, outcomes_total, nviol, skipped};
+                         for (int i = 0; i < 16; i++) score[2 + i] = c[i]; };
   for (auto& k : dists) {
     int n = 0; for (int v : k) n += v;
     std::vector<int> od(n, 0), owner;
@@ -326,6 +344,14 @@ int main(int argc, char** argv)
         if ((only < 0 && index % nshards == shard) || index == only) {
           Program P(R);
           for (int j = 0; j < n; j++) P[owner[j]].push_back(alpha[owner[j]][od[j]]);
+          bool resumed_past = index < after_i;                   // everything up to `after` was done by a previous simulation
+          bool trunc_possible = false;
+          for (int r = 0; r < R; r++) for (auto& o : P[r]) if (has_recv(o) && o.cap)
+            for (int r2 = 0; r2 < R; r2++) for (auto& o2 : P[r2]) if (has_send(o2) && o2.peer == r && o2.sz > 0 && (o.rpeer == ANY || o.rpeer == r2) && (o.rtag == ANY || o.rtag == o2.tag)) trunc_possible = true;
+          if (resumed_past) goto next_candidate;
+          if (only >= 0 && rank == 0) printf("P index=%ld trunc=%d prog=%s\n", index, (int)trunc_possible, prog_str(P).c_str());
+          if ((skipclass & 1) && trunc_possible) { skipped++; goto next_candidate; }
+          {
           Model M(P);
           M.run();
           states += (long)M.seen.size(); transitions += M.transitions;
@@ -343,7 +369,10 @@ int main(int argc, char** argv)
             if (sizes_differ) mixed++;
             for (int v = 0; v < nvariants; v++) {
               const Sizes& z = variants[v];
+              if (index == after_i && v <= after_v) continue;
+              if (onlyvar >= 0 && v != onlyvar) continue;
               MPI_Barrier(sync);
+              if (rank == 0) { publish(); score[0] = index; score[1] = v; }
               if (rank == 0) { for (auto& o : g_recv) o = Obs{-1, 0, 0, 0, 0, 0}; for (auto& o : g_probe) o = Obs{-1, 0, 0, 0, 0, 0}; memset(g_bad, 0, sizeof g_bad); }
               MPI_Barrier(sync);
               run_rank(P, M, rank, comm, z);
@@ -413,8 +442,10 @@ int main(int argc, char** argv)
               }
             }
           }
+          }
         }
       }
+      next_candidate:
       // ---- next candidate
       int j = n - 1;
       while (j >= 0 && od[j] + 1 == (int)alpha[owner[j]].size()) od[j--] = 0;
@@ -422,10 +453,11 @@ int main(int argc, char** argv)
     }
   }
   MPI_Barrier(sync);
+  if (rank == 0) { publish(); score[0] = -2; }
   if (rank == 0)
     printf("N generated=%ld balanced=%ld mine_kept=%ld deadlocking=%ld leftover=%ld overflow=%ld runs=%ld multi=%ld states=%ld transitions=%ld "
-           "truncs=%ld anysrc=%ld mixed=%ld outcomes=%ld violations=%ld\n",
-           generated, balanced, kept, deadlocking, leftover, overflow, run, multi, states, transitions, truncs, anysrc, mixed, outcomes_total, nviol);
+           "truncs=%ld anysrc=%ld mixed=%ld outcomes=%ld violations=%ld skipped=%ld\n",
+           generated, balanced, kept, deadlocking, leftover, overflow, run, multi, states, transitions, truncs, anysrc, mixed, outcomes_total, nviol, skipped);
   int sz; void* bp; MPI_Buffer_detach(&bp, &sz);
   MPI_Finalize();
   return 0;
